@@ -78,7 +78,7 @@ class Report:
         wall = time.time() - self.t0
         self.cov['distinct_nontrivial'] = len(self._distinct)
         os.makedirs(env.EVIDENCE, exist_ok=True)
-        replay_dir = os.path.join(env.VERIF, 'replays')
+        replay_dir = env.REPLAYS
         lines = []
         for i, (key, what, replay) in enumerate(self.viol[:25]):
             os.makedirs(replay_dir, exist_ok=True)
